@@ -480,12 +480,14 @@ package soyhtml
 //@   nosafety
 //@ func funcKeys
 //@   like renderFn
+//@   props C08 C09 C13
 //@   nosafety
 //@   loop 0
 //@     invariant fresh(keys)
 //@     noterm
 //@ func funcAugmentMap
 //@   like renderFn
+//@   props C08 C09 C13
 //@   nosafety
 //@ func funcRound
 //@   like renderFn
@@ -529,3 +531,5 @@ package soyhtml
 //@ func isNullSafeAccess
 //@   like renderFn
 //@   nosafety
+
+// C13: builtin functions over maps do not depend on map iteration order.
